@@ -28,10 +28,14 @@ type rec struct {
 	ID   string `json:"id"`
 	Src  string `json:"src"`  // func | pipeline
 	Mode string `json:"mode"` // deploy | pod
-	W    []int  `json:"w"`
-	L    []int  `json:"l"`
-	IW   int    `json:"iw"`
-	Out  []int  `json:"out"`
+	// weights written on the servers that must not get traffic: not-ready pods of the groups (kept as draining servers by
+	// drain-support) and a pod that matches no group
+	Drain   []int `json:"drain"`
+	NoGroup []int `json:"nogroup"`
+	W       []int `json:"w"`
+	L       []int `json:"l"`
+	IW      int   `json:"iw"`
+	Out     []int `json:"out"`
 }
 
 func direct(i int, in input) rec {
@@ -47,17 +51,23 @@ func direct(i int, in input) rec {
 			out[k] = 0 // no server carries it
 		}
 	}
-	return rec{ID: fmt.Sprintf("f%d", i), Src: "func", Mode: "deploy", W: in.W, L: in.L, IW: in.IW, Out: out}
+	return rec{ID: fmt.Sprintf("f%d", i), Src: "func", Mode: "deploy", W: in.W, L: in.L, IW: in.IW, Out: out, Drain: []int{}, NoGroup: []int{}}
 }
 
 func viaPipeline(base string, i int, in input, mode string) (rec, error) {
 	r := rec{ID: fmt.Sprintf("p%d-%s", i, mode), Src: "pipeline", Mode: mode, W: in.W, L: in.L, IW: in.IW}
-	w, err := world.New(base, nil, pipeline.Options{WatchWithoutClass: true})
+	r.Drain, r.NoGroup = []int{}, []int{}
+	w, err := world.New(base, nil, pipeline.Options{WatchWithoutClass: true, ConfigMapName: "ingress/cfg"})
 	if err != nil {
 		return r, err
 	}
 	defer w.Close()
 	p := w.P
+	extra := i%3 == 0 // also a draining pod per group and a pod outside every group
+	if extra {
+		p.Apply(kobj.ConfigMap("ingress", "cfg", map[string]string{"drain-support": "true"}))
+	}
+	var notReady, drainIPs, strayIPs []string
 	groups := []string{"blue", "green", "red"}
 	var bal []string
 	var ready []string
@@ -77,9 +87,21 @@ func viaPipeline(base string, i int, in input, mode string) (rec, error) {
 			p.Apply(kobj.Pod("d", name, ip, map[string]string{labelName: groups[g], "app": "app"}, false))
 			ready = append(ready, ip+":"+name)
 		}
+		if extra && in.L[g] > 0 {
+			name := fmt.Sprintf("pod-%s-drain", groups[g])
+			ip := fmt.Sprintf("10.%d.1.1", g+1)
+			p.Apply(kobj.Pod("d", name, ip, map[string]string{labelName: groups[g], "app": "app"}, false))
+			notReady = append(notReady, ip+":"+name)
+			drainIPs = append(drainIPs, ip+":8080")
+		}
+	}
+	if extra {
+		p.Apply(kobj.Pod("d", "pod-stray", "10.9.0.1", map[string]string{"app": "app"}, false))
+		ready = append(ready, "10.9.0.1:pod-stray")
+		strayIPs = append(strayIPs, "10.9.0.1:8080")
 	}
 	p.Apply(kobj.Service("d", "app", nil, ":8080:8080"))
-	p.Apply(kobj.Endpoints("d", "app", ready, nil, ":8080"))
+	p.Apply(kobj.Endpoints("d", "app", ready, notReady, ":8080"))
 	ann := map[string]string{"blue-green-balance": strings.Join(bal, ","), "blue-green-mode": mode, "initial-weight": fmt.Sprint(in.IW)}
 	p.Apply(kobj.Ingress("d", "i1", 1, ann, nil, []kobj.Rule{{Host: "a.local", Paths: []kobj.Path{{Path: "/", Svc: "app", Port: "8080"}}}}, nil, nil))
 	if _, err := p.ReconcilePending(false); err != nil {
@@ -90,6 +112,18 @@ func viaPipeline(base string, i int, in input, mode string) (rec, error) {
 		return r, err
 	}
 	weights := cfgnf.ServerWeights(raw, "d_app_8080")
+	for _, ip := range drainIPs {
+		if wv, ok := weights[ip]; ok {
+			r.Drain = append(r.Drain, wv)
+		} else {
+			return r, fmt.Errorf("draining server %s not found in the configuration", ip)
+		}
+	}
+	for _, ip := range strayIPs {
+		if wv, ok := weights[ip]; ok {
+			r.NoGroup = append(r.NoGroup, wv)
+		}
+	}
 	r.Out = make([]int, len(in.W))
 	for g := range in.W {
 		r.Out[g] = 0
